@@ -114,6 +114,33 @@ func e2Family(tier string, amevs []int64) []*Job {
 				s4.TxA = []H{102, 103}
 				jobs = append(jobs, job(e2scen(fmt.Sprintf("E2-poolfirst-rejected-block-N4-x%d-%s-%s", x, role, an), 4, x, a, s4), per))
 			}
+			if x == other {
+				// the application's VerifyPrepareRequest refuses the second proposal of an equivocating primary: whatever the
+				// library does with a refused proposal, it must respect what the node has already sent in that view
+				s11 := E2Spec{Views: 1, Proposals: "AB", Responses: "A", Commits: "A", MaxDepth: 10, StateCap: cap1}
+				if a >= 0 {
+					s11.PreCommits = "A"
+				}
+				rj := e2scen(fmt.Sprintf("E2-verifier-rejects-second-proposal-N4-x%d-%s-%s", x, role, an), 4, x, a, s11)
+				rj.RejectReqB = true
+				rj.Missing, rj.BadTx = map[int][]H{}, map[int][]H{}
+				jobs = append(jobs, job(rj, per))
+			}
+			if (x == other || x == prim1) && a <= 0 {
+				// change views for a view the node has already entered are delivered again (duplicates, stragglers): they
+				// must not re-initialise that view (the node would forget what it proposed / answered there)
+				s10 := E2Spec{Views: 2, Proposals: "AB", CVs: 1, CVViews: 1, MaxDepth: 10, StateCap: cap1}
+				rd := e2scen(fmt.Sprintf("E2-changeviews-redelivered-N4-x%d-%s-%s", x, role, an), 4, x, a, s10)
+				rd.Missing, rd.BadTx = map[int][]H{}, map[int][]H{}
+				jobs = append(jobs, job(rd, per))
+			}
+			if x == other && a != 0 {
+				// the ledger gets the block of the height under consensus from elsewhere and the application calls Reset a
+				// little later: payloads of the old height still arrive in between (anti-MEV off, or switching on exactly
+				// at the next height: what is enabled is a property of the height under consensus, not of the ledger)
+				s9 := E2Spec{Views: 1, Proposals: "A", Responses: "A", Commits: "AG", PreCommits: "AG", LedgerFirst: true, Heights: 2, MaxDepth: 8, StateCap: cap1}
+				jobs = append(jobs, job(e2scen(fmt.Sprintf("E2-ledger-ahead-of-consensus-N4-x%d-%s-%s", x, role, an), 4, x, a, s9), per))
+			}
 			if x == other && a >= 0 {
 				// the pre-block is processed on M pre-commits of view 0 before X itself pre-committed, then the view
 				// changes (possible only with more than F faulty members or restarts, which a single node cannot know):
